@@ -517,6 +517,15 @@ def run_streams(case):
       pending['stream'] = s
       if fed:
         dev.feed(*fed)
+    elif cmd == 'WRTE' and pending.get('ack') and (
+        model.by_local(a0) is not None and
+        model.by_local(a0) is not pending.get('wstream')):
+      # The host wrote through a handle whose local id already belongs to a
+      # newer stream (its own CLSE is still parked, unread, in its queue): the
+      # device's answer would be addressed to an id that now means another
+      # stream - the unspecified reuse situation again (see open_sent).  The
+      # device stays silent and the history ends without a verdict.
+      model.poisoned = True
     elif cmd == 'WRTE' and pending.get('ack') == 'wrte_clse':
       # the service prints its answer and exits instead of acknowledging
       ws = pending['wstream']
@@ -705,6 +714,9 @@ def run_streams(case):
       n_before = len(dev.host_msgs)
       will_timeout = not ack
       got = result_of(lambda: real.write(data, timeout_ms=20000))
+      if model.poisoned:
+        counters['histories_ended_by_stale_id_reuse'] = 1
+        break
       sent = [m for m in dev.host_msgs[n_before:] if m[2] == 'WRTE' and m[3] == s['local']]
       # model replay: inbound already contains the OKAYs appended by on_host in
       # arrival order, interleaved correctly because the host is single-threaded.
